@@ -1,4 +1,5 @@
 import Sourmash.Lemmas.SampleHistory
+import Sourmash.Lemmas.SampleBulk
 /-! Property C01 — a sketch always holds exactly the sample its parameters define.
 Property theorems only; helper lemmas live in `Sourmash/Lemmas/Sample*.lean`.
 
@@ -129,6 +130,79 @@ theorem scaled_history (mh : Nat) (t : Bool) (ops : List Op) (hmh : 1 ≤ mh) (x
 theorem scaled_history_spec (k : Kind) (mh : Nat) (t : Bool) (ops : List Op) (hmh : 1 ≤ mh) (x : Nat) :
     lookup (runSpec k mh (opsHist 0 t ops)).m x = ops.foldl (pt k mh x) none :=
   lookup_run_scaled k mh t ops hmh x
+
+/-! ### every entry point: bulk steps, second-operand steps, observers (`Spec/SampleBulk.lean`)
+
+`HistB` extends the histories by `add_many`, `add_many_with_abund`, `kmerminhash_set_abundances`
+(with and without clear), `add_from`, `remove_from` and the observers `md5sum` / `Clone` / `==`.
+The abstract meaning of a bulk step is *by definition* the fold of the single steps it stands for
+(`St.stepB`, `BOp.expand`); an observer stands for no step at all. -/
+
+/-- **T-bulk_is_fold**: each bulk entry point of the two executable models IS the fold of the model's
+    single steps over the list it is given (vector and tree type; `set_abundances` = optional clear,
+    then the pairs in ascending order). -/
+theorem bulk_is_fold (s : Vec) (s' : Tree) (hs : List Nat) (ps : List (Nat × Nat)) (c : Bool) :
+    s.addMany hs = (hs.map (fun h => Op.add h 1)).foldl vecStep s
+    ∧ s.addManyAbund ps = (ps.map (fun p => Op.add p.1 p.2)).foldl vecStep s
+    ∧ s.removeMany hs = (hs.map Op.remove).foldl vecStep s
+    ∧ s.setAbundances ps c = (BOp.setAbund ps c).expand.foldl vecStep s
+    ∧ s'.addMany hs = (hs.map (fun h => Op.add h 1)).foldl treeStep s'
+    ∧ s'.addManyAbund ps = (ps.map (fun p => Op.add p.1 p.2)).foldl treeStep s'
+    ∧ s'.removeMany hs = (hs.map Op.remove).foldl treeStep s' :=
+  ⟨vec_addMany_fold s hs, vec_addManyAbund_fold s ps, vec_removeMany_fold s hs, vec_setAbundances_fold s ps c,
+   tree_addMany_fold s' hs, tree_addManyAbund_fold s' ps, tree_removeMany_fold s' hs⟩
+
+/-- **T-observers**: `md5sum` (hence `==`, serialising) leaves parameters, hashes and abundances of the
+    receiver as they were, and a clone has the parameters, hashes and abundances of the original. -/
+theorem observers_change_nothing (s : Vec) (s' : Tree) :
+    vecObs s.md5sum.2 = vecObs s ∧ vecObs s.clone.1 = vecObs s ∧ s.md5sum.2.num = s.num ∧ s.clone.1.num = s.num
+    ∧ treeObs s'.md5sum.2 = treeObs s' ∧ treeObs s'.clone.1 = treeObs s'
+    ∧ s'.md5sum.2.num = s'.num ∧ s'.clone.1.num = s'.num := by
+  obtain ⟨h1, _, h3, h4, _⟩ := vec_md5sum_fields s
+  obtain ⟨g1, _, g3, g4, _⟩ := tree_md5sum_fields s'
+  refine ⟨?_, rfl, h1, rfl, ?_, rfl, g1, rfl⟩
+  · simp only [vecObs, h3, h4]
+  · simp only [treeObs, Tree.abundVals, g3, g4]
+
+/-- **T-vec_refines_bulk**: T-vec_refines over histories that use ANY entry point. -/
+theorem vec_refines_bulk (mh : Nat) (H : HistB) (hwf : H.WF mh) :
+    vecObs (runVecB mh H) = (runSpecB .vec mh H).obs ∧ VInv (runVecB mh H) :=
+  ⟨(runVecB_ref mh H hwf).obs, (runVecB_ref mh H hwf).inv (runSpecB_inv .vec mh H hwf)⟩
+
+/-- **T-tree_refines_bulk**: the same for the tree type (no `set`, no C API). -/
+theorem tree_refines_bulk (mh : Nat) (H : HistB) (hwf : H.WF mh) (hns : H.NoSet) :
+    treeObs (runTreeB mh H) = (runSpecB .tree mh H).obs ∧ TInv (runTreeB mh H) :=
+  ⟨(runTreeB_ref mh H hwf hns).obs, (runTreeB_ref mh H hwf hns).inv (runSpecB_inv .tree mh H hwf)⟩
+
+/-- the bulk histories contain the single-step histories: the three runs agree on `Hist.toB` -/
+theorem bulk_extends (k : Kind) (mh : Nat) (H : Hist) :
+    runSpecB k mh H.toB = runSpec k mh H ∧ runVecB mh H.toB = runVec mh H ∧ runTreeB mh H.toB = runTree mh H :=
+  ⟨runSpecB_toB k mh H, runVecB_toB mh H, runTreeB_toB mh H⟩
+
+/-- **T-merge_clone**: merging a sketch with its own clone (or with any sketch that refines the same
+    sample), whatever history built it and whatever was observed in between, keeps the hashes and
+    doubles every abundance; nothing is evicted. -/
+theorem merge_clone_doubles (mh : Nat) (H : HistB) (hwf : H.WF mh) :
+    vecObs ((runVecB mh H).merge (runVecB mh H).clone.1)
+      = ⟨keys (runSpecB .vec mh H).m,
+         if (runSpecB .vec mh H).track then some ((vals (runSpecB .vec mh H).m).map (fun v => v + v)) else none⟩ := by
+  have r := runVecB_ref mh H hwf
+  have i := runSpecB_inv .vec mh H hwf
+  rw [(r.merge r.cloned i).obs]
+  obtain ⟨hm, ht⟩ := St.merge_self i
+  simp only [St.obs, hm, ht, keys, vals, List.map_map]
+  rfl
+
+/-- non-vacuity: a bulk history through `add_many_with_abund` with a zero-abundance pair, an observer,
+    `set_abundances` and a merge with the sketch itself (its clone) satisfies the hypotheses; the
+    zero-abundance pair of the batch removes on the vector type -/
+example : (HistB.op (.new 0 true) (.addManyAbund [(3, 0), (5, 2), (9, 1)])).WF 10
+    ∧ vecObs (runVecB 10 (.op (.new 0 true) (.addManyAbund [(3, 0), (5, 2), (9, 1)]))) = ⟨[5, 9], some [2, 1]⟩
+    ∧ vecObs (runVecB 10 (.merge (.op (.op (.new 0 true) (.addManyAbund [(5, 2), (9, 1)])) .observe)
+                                 (.op (.op (.new 0 true) (.addManyAbund [(5, 2), (9, 1)])) .observe)))
+        = ⟨[5, 9], some [4, 2]⟩ :=
+  ⟨by simp [HistB.WF, WFp], by decide,
+   by rw [(vec_refines_bulk 10 _ (by simp [HistB.WF, WFp])).1]; decide⟩
 
 /-! ### non-vacuity: concrete histories hitting eviction, the ceiling, 0 and 2^64−1 -/
 
